@@ -287,7 +287,8 @@ Section Backup.
                       Do (OpWrite (PHead id) (PlHead HvOk) CreateNew) (fun r5 => if is_ok r5 then
                       (* the lock again, now that the new band is visible ("fix: a backup could
                          deduplicate against blocks a concurrent gc then deleted") *)
-                      Do (OpMeta PLock) (fun r5b => match r5b with RErr ENotFound =>
+                      Do (OpList DRoot) (fun r5b => match r5b with RList _ fs5 =>
+                      if existsb (fun p => fpath_eqb (fst p) PLock) fs5 then Ret fail0 else
                       (* archive.block_dir() *)
                       Do (OpList DBlocks) (fun r6 =>
                         match r6 with
